@@ -56,7 +56,11 @@ def gen_task(rng, lay, uid, simple=False, allow_app_slots=True):
     cap = max(1, (cpn // max(1, cpr)) * n)
     ranks = pick([1, 1, 1, 2, 2, 3, 4], [cap, cap, cap + 1, max(1, cap - 1),
                                          2 * cap])
-    gpr = pick([0, 0, 0, 0, 1, 0.5, 0.25], [2, 0.75, gpn, gpn + 1], 0.15)
+    # GPU shares: dyadic ones add up exactly in floating point, 0.3 / 0.1 /
+    # 0.2 do not (three 0.3 shares of one GPU leave a residue when summed up
+    # and subtracted again)
+    gpr = pick([0, 0, 0, 0, 1, 0.5, 0.25, 0.3, 0.1, 0.2],
+               [2, 0.75, gpn, gpn + 1], 0.15)
     if gpn == 0 and rng.random() < 0.85:
         gpr = 0
     lfs = pick([0, 0, 0, 30, 60], [100, 120], 0.08)
